@@ -2,6 +2,7 @@
 //! generated inputs and prints canonical traces for the correspondence with the Coq model, plus
 //! the result of per-property direct oracles.
 mod labels;
+mod markers;
 mod rng;
 
 use std::io::Write;
@@ -23,6 +24,15 @@ fn main() {
                 writeln!(out, "ORACLE-FAIL {}", f).unwrap();
             }
             writeln!(out, "SUMMARY cases={} oracle_failures={}", o.n, o.oracle_failures.len()).unwrap();
+        }
+        "markers" => {
+            let mut s = String::new();
+            let (n, fails) = markers::run(arg(&args, 2, 1u64), arg(&args, 3, 0u32), &mut s);
+            out.write_all(s.as_bytes()).unwrap();
+            for f in &fails {
+                writeln!(out, "ORACLE-FAIL {}", f).unwrap();
+            }
+            writeln!(out, "SUMMARY cases={} oracle_failures={}", n, fails.len()).unwrap();
         }
         _ => {
             eprintln!("usage: akd-verif-harness <labels> seed tier");
